@@ -40,7 +40,7 @@ Lemma decode_blocks_eq : forall fuel n client clock bs acc,
     | Some b =>
       match add32_checked clock (block_len b) with
       | Some clock' => decode_blocks f (n - 1) client clock' rest (b :: acc)
-      | None => Panic P_ADD_U32
+      | None => Err UnexpectedValue
       end
     end
   end.
@@ -62,180 +62,160 @@ Lemma decode_clients_eq : forall fuel n bs acc,
 Proof. destruct fuel; reflexivity. Qed.
 
 (* ------------------------------------------------------------------------------------------------ *)
-(* B8. totality of decode_update_v1                                                                 *)
+(* B8. totality of decode_update_v1: no panic at all                                                *)
 (* ------------------------------------------------------------------------------------------------ *)
 
-Definition ps_update (s : N) : Prop :=
-  s = P_ADD_U32 \/ s = P_CLIENT_ID \/ s = P_SHL_I64 \/ s = P_NEG_I64.
+Lemma bnd_decode_any : forall fuel bs, (length bs < fuel)%nat -> bnd (length bs) (decode_any fuel bs).
+Proof.
+  intros fuel bs Hl. pose proof (decode_any_total fuel bs) as Ht.
+  pose proof (decode_any_fuel_ge fuel bs Hl) as Hf. pose proof (decode_any_shrinks fuel bs) as Hs.
+  destruct (decode_any fuel bs); cbn [bnd]; auto.
+  eapply Hs; [exact Hl|reflexivity].
+Qed.
 
-Section TotalUpdate.
-  Variable P : N -> Prop.
-  Hypothesis Pshl : P P_SHL_I64.
-  Hypothesis Pneg : P P_NEG_I64.
+Lemma bnd_read_strings : forall fuel n bs acc, (length bs < fuel)%nat ->
+  bnd (S (length bs)) (read_strings fuel n bs acc).
+Proof.
+  induction fuel as [|f IH]; intros n bs acc Hl; [lia|]. rewrite read_strings_eq.
+  destruct (n =? 0); [cbn; lia|].
+  eapply bnd_bind; [apply bnd_read_string|]. intros s rest Hr.
+  eapply bnd_le; [|apply IH]; lia.
+Qed.
 
-  Lemma bnd_decode_any : forall fuel bs, (length bs < fuel)%nat -> bnd P (length bs) (decode_any fuel bs).
-  Proof.
-    intros fuel bs Hl. pose proof (decode_any_total fuel bs) as Ht.
-    pose proof (decode_any_fuel_ge fuel bs Hl) as Hf. pose proof (decode_any_shrinks fuel bs) as Hs.
-    destruct (decode_any fuel bs); cbn [bnd]; auto.
-    - eapply Hs; [exact Hl|reflexivity].
-    - destruct Ht as [->| ->]; assumption.
-  Qed.
+Lemma bnd_read_anys : forall fuel n bs acc, (length bs < fuel)%nat ->
+  bnd (S (length bs)) (read_anys fuel n bs acc).
+Proof.
+  induction fuel as [|f IH]; intros n bs acc Hl; [lia|]. rewrite read_anys_eq.
+  destruct (n =? 0); [cbn; lia|].
+  eapply bnd_bind; [apply bnd_decode_any; exact Hl|]. intros s rest Hr.
+  eapply bnd_le; [|apply IH]; lia.
+Qed.
 
-  Lemma bnd_read_strings : forall fuel n bs acc, (length bs < fuel)%nat ->
-    bnd P (S (length bs)) (read_strings fuel n bs acc).
-  Proof.
-    induction fuel as [|f IH]; intros n bs acc Hl; [lia|]. rewrite read_strings_eq.
-    destruct (n =? 0); [cbn; lia|].
-    eapply bnd_bind; [apply bnd_read_string|]. intros s rest Hr.
+Lemma bnd_decode_scope : forall u r bs, bnd (length bs) (decode_scope u r bs).
+Proof.
+  intros u r bs. unfold decode_scope. destruct u; [destruct r|]; apply bnd_rmap;
+    try apply bnd_read_string; apply bnd_read_id.
+Qed.
+
+Lemma bnd_decode_weak_link : forall bs, bnd (length bs) (decode_weak_link bs).
+Proof.
+  intro bs. unfold decode_weak_link. eapply bnd_bind; [apply bnd_read_u8|]. intros flags r0 H0.
+  eapply bnd_bind; [apply bnd_decode_scope|]. intros s r1 H1.
+  eapply (bnd_bind _ _ (S (length r1))).
+  - destruct (flag flags C_WEAK_REF_FLAGS_END_UNBOUNDED).
+    + eapply bnd_le; [|apply bnd_decode_scope]; lia.
+    + destruct (negb (flag flags C_WEAK_REF_FLAGS_QUOTE)); [cbn; lia|].
+      eapply bnd_le; [|apply bnd_decode_scope]; lia.
+  - intros e r2 H2. cbn [bnd]. lia.
+Qed.
+
+Lemma bnd_decode_tyref : forall bs, bnd (length bs) (decode_tyref bs).
+Proof.
+  intro bs. unfold decode_tyref. destruct bs as [|t rest]; cbn [read_u8 bind]; [exact I|].
+  repeat match goal with |- bnd _ (if ?t =? ?c then _ else _) => destruct (t =? c) end;
+    try exact I; try (cbn; lia).
+  - apply bnd_rmap. eapply bnd_le; [|apply bnd_read_string]. cbn; lia.
+  - apply bnd_rmap. eapply bnd_le; [|apply bnd_decode_weak_link]. cbn; lia.
+Qed.
+
+Lemma bnd_decode_content : forall fuel info bs, (length bs < fuel)%nat ->
+  bnd (length bs) (decode_content fuel info bs).
+Proof.
+  intros fuel info bs Hl. unfold decode_content.
+  repeat match goal with |- bnd _ (if ?t =? ?c then _ else _) => destruct (t =? c) end;
+    try exact I.
+  - apply bnd_rmap, bnd_read_var_u32.
+  - eapply bnd_bind; [apply bnd_read_var_u32|]. intros n rest Hr. apply bnd_rmap.
+    eapply bnd_le; [|apply bnd_read_strings]; lia.
+  - apply bnd_rmap, bnd_read_buf.
+  - apply bnd_rmap, bnd_read_string.
+  - apply bnd_rmap, bnd_read_string.
+  - eapply bnd_bind; [apply bnd_read_string|]. intros k r1 H1.
+    eapply bnd_bind; [apply bnd_read_string|]. intros v r2 H2. cbn [bnd]. lia.
+  - apply bnd_rmap, bnd_decode_tyref.
+  - eapply bnd_bind; [apply bnd_read_var_u32|]. intros n rest Hr. apply bnd_rmap.
+    eapply bnd_le; [|apply bnd_read_anys]; lia.
+  - eapply bnd_bind; [apply bnd_read_string|]. intros g r1 H1.
+    eapply bnd_bind; [apply bnd_decode_any; lia|]. intros o r2 H2. cbn [bnd]. lia.
+Qed.
+
+Lemma bnd_decode_block : forall fuel i bs, (length bs < fuel)%nat ->
+  bnd (length bs) (decode_block fuel i bs).
+Proof.
+  intros fuel i bs Hl. unfold decode_block. destruct bs as [|info r0]; cbn [read_u8 bind]; [exact I|].
+  cbn [length] in *.
+  destruct (info =? C_BLOCK_SKIP_REF_NUMBER).
+  { apply bnd_rmap. eapply bnd_le; [|apply bnd_read_var_u32]. lia. }
+  destruct (info =? C_BLOCK_GC_REF_NUMBER).
+  { apply bnd_rmap. eapply bnd_le; [|apply bnd_read_var_u32]. lia. }
+  eapply (bnd_bind _ _ (S (length r0))).
+  { destruct (flag info C_HAS_ORIGIN); [|cbn; lia].
+    apply bnd_rmap. eapply bnd_le; [|apply bnd_read_id]. lia. }
+  intros o r1 H1.
+  eapply (bnd_bind _ _ (S (length r0))).
+  { destruct (flag info C_HAS_RIGHT_ORIGIN); [|cbn; lia].
+    apply bnd_rmap. eapply bnd_le; [|apply bnd_read_id]. lia. }
+  intros ro r2 H2.
+  eapply (bnd_bind _ _ (S (length r0))).
+  { destruct (negb (flag info C_HAS_ORIGIN) && negb (flag info C_HAS_RIGHT_ORIGIN)); [|cbn; lia].
+    eapply bnd_bind; [apply bnd_read_var_u32|]. intros pi q Hq.
+    destruct (pi =? 1); apply bnd_rmap.
+    - eapply bnd_le; [|apply bnd_read_string]. lia.
+    - eapply bnd_le; [|apply bnd_read_id]. lia. }
+  intros p r3 H3.
+  eapply (bnd_bind _ _ (S (length r0))).
+  { destruct (negb (flag info C_HAS_ORIGIN) && negb (flag info C_HAS_RIGHT_ORIGIN) && flag info C_HAS_PARENT_SUB);
+      [|cbn; lia].
+    apply bnd_rmap. eapply bnd_le; [|apply bnd_read_string]. lia. }
+  intros ps r4 H4.
+  eapply (bnd_bind _ _ (S (length r0))).
+  { eapply bnd_le; [|apply bnd_decode_content]; lia. }
+  intros c r5 H5. destruct (content_len c =? 0); cbn [bnd]; lia.
+Qed.
+
+Lemma bnd_decode_blocks : forall fuel n client clock bs acc, (length bs < fuel)%nat ->
+  bnd (S (length bs)) (decode_blocks fuel n client clock bs acc).
+Proof.
+  induction fuel as [|f IH]; intros n client clock bs acc Hl; [lia|]. rewrite decode_blocks_eq.
+  destruct (n =? 0); [cbn; lia|].
+  eapply bnd_bind; [apply bnd_decode_block; exact Hl|]. intros ob rest Hr.
+  destruct ob as [b|].
+  - destruct (add32_checked clock (block_len b)); [|exact I].
     eapply bnd_le; [|apply IH]; lia.
-  Qed.
+  - eapply bnd_le; [|apply IH]; lia.
+Qed.
 
-  Lemma bnd_read_anys : forall fuel n bs acc, (length bs < fuel)%nat ->
-    bnd P (S (length bs)) (read_anys fuel n bs acc).
-  Proof.
-    induction fuel as [|f IH]; intros n bs acc Hl; [lia|]. rewrite read_anys_eq.
-    destruct (n =? 0); [cbn; lia|].
-    eapply bnd_bind; [apply bnd_decode_any; exact Hl|]. intros s rest Hr.
-    eapply bnd_le; [|apply IH]; lia.
-  Qed.
+Lemma bnd_decode_clients : forall fuel n bs acc, (length bs < fuel)%nat ->
+  bnd (S (length bs)) (decode_clients fuel n bs acc).
+Proof.
+  induction fuel as [|f IH]; intros n bs acc Hl; [lia|]. rewrite decode_clients_eq.
+  destruct (n =? 0); [cbn; lia|].
+  eapply bnd_bind; [apply bnd_read_var_u32|]. intros nblocks r1 H1.
+  eapply bnd_bind; [apply bnd_read_var_u64|]. intros c0 r2 H2.
+  eapply bnd_bind; [apply bnd_client_id_new|]. intros client r2' H2'.
+  eapply bnd_bind; [apply bnd_read_var_u32|]. intros clock r3 H3.
+  eapply bnd_bind; [apply bnd_decode_blocks; lia|]. intros blocks r4 H4.
+  eapply bnd_le; [|apply IH]; lia.
+Qed.
 
-  Hypothesis Pcid : P P_CLIENT_ID.
-
-  Lemma bnd_decode_scope : forall u r bs, bnd P (length bs) (decode_scope u r bs).
-  Proof.
-    intros u r bs. unfold decode_scope. destruct u; [destruct r|]; apply bnd_rmap;
-      try apply bnd_read_string; apply bnd_read_id; exact Pcid.
-  Qed.
-
-  Lemma bnd_decode_weak_link : forall bs, bnd P (length bs) (decode_weak_link bs).
-  Proof.
-    intro bs. unfold decode_weak_link. eapply bnd_bind; [apply bnd_read_u8|]. intros flags r0 H0.
-    eapply bnd_bind; [apply bnd_decode_scope|]. intros s r1 H1.
-    eapply (bnd_bind _ _ _ (S (length r1))).
-    - destruct (flag flags C_WEAK_REF_FLAGS_END_UNBOUNDED).
-      + eapply bnd_le; [|apply bnd_decode_scope]; lia.
-      + destruct (negb (flag flags C_WEAK_REF_FLAGS_QUOTE)); [cbn; lia|].
-        eapply bnd_le; [|apply bnd_decode_scope]; lia.
-    - intros e r2 H2. cbn [bnd]. lia.
-  Qed.
-
-  Lemma bnd_decode_tyref : forall bs, bnd P (length bs) (decode_tyref bs).
-  Proof.
-    intro bs. unfold decode_tyref. destruct bs as [|t rest]; cbn [read_u8 bind]; [exact I|].
-    repeat match goal with |- bnd _ _ (if ?t =? ?c then _ else _) => destruct (t =? c) end;
-      try exact I; try (cbn; lia).
-    - apply bnd_rmap. eapply bnd_le; [|apply bnd_read_string]. cbn; lia.
-    - apply bnd_rmap. eapply bnd_le; [|apply bnd_decode_weak_link]. cbn; lia.
-  Qed.
-
-  Lemma bnd_decode_content : forall fuel info bs, (length bs < fuel)%nat ->
-    bnd P (length bs) (decode_content fuel info bs).
-  Proof.
-    intros fuel info bs Hl. unfold decode_content.
-    repeat match goal with |- bnd _ _ (if ?t =? ?c then _ else _) => destruct (t =? c) end;
-      try exact I.
-    - apply bnd_rmap, bnd_read_var_u32.
-    - eapply bnd_bind; [apply bnd_read_var_u32|]. intros n rest Hr. apply bnd_rmap.
-      eapply bnd_le; [|apply bnd_read_strings]; lia.
-    - apply bnd_rmap, bnd_read_buf.
-    - apply bnd_rmap, bnd_read_string.
-    - apply bnd_rmap, bnd_read_string.
-    - eapply bnd_bind; [apply bnd_read_string|]. intros k r1 H1.
-      eapply bnd_bind; [apply bnd_read_string|]. intros v r2 H2. cbn [bnd]. lia.
-    - apply bnd_rmap, bnd_decode_tyref.
-    - eapply bnd_bind; [apply bnd_read_var_u32|]. intros n rest Hr. apply bnd_rmap.
-      eapply bnd_le; [|apply bnd_read_anys]; lia.
-    - eapply bnd_bind; [apply bnd_read_string|]. intros g r1 H1.
-      eapply bnd_bind; [apply bnd_decode_any; lia|]. intros o r2 H2. cbn [bnd]. lia.
-  Qed.
-
-  Lemma bnd_decode_block : forall fuel i bs, (length bs < fuel)%nat ->
-    bnd P (length bs) (decode_block fuel i bs).
-  Proof.
-    intros fuel i bs Hl. unfold decode_block. destruct bs as [|info r0]; cbn [read_u8 bind]; [exact I|].
-    cbn [length] in *.
-    destruct (info =? C_BLOCK_SKIP_REF_NUMBER).
-    { apply bnd_rmap. eapply bnd_le; [|apply bnd_read_var_u32]. lia. }
-    destruct (info =? C_BLOCK_GC_REF_NUMBER).
-    { apply bnd_rmap. eapply bnd_le; [|apply bnd_read_var_u32]. lia. }
-    eapply (bnd_bind _ _ _ (S (length r0))).
-    { destruct (flag info C_HAS_ORIGIN); [|cbn; lia].
-      apply bnd_rmap. eapply bnd_le; [|apply bnd_read_id; exact Pcid]. lia. }
-    intros o r1 H1.
-    eapply (bnd_bind _ _ _ (S (length r0))).
-    { destruct (flag info C_HAS_RIGHT_ORIGIN); [|cbn; lia].
-      apply bnd_rmap. eapply bnd_le; [|apply bnd_read_id; exact Pcid]. lia. }
-    intros ro r2 H2.
-    eapply (bnd_bind _ _ _ (S (length r0))).
-    { destruct (negb (flag info C_HAS_ORIGIN) && negb (flag info C_HAS_RIGHT_ORIGIN)); [|cbn; lia].
-      eapply bnd_bind; [apply bnd_read_var_u32|]. intros pi q Hq.
-      destruct (pi =? 1); apply bnd_rmap.
-      - eapply bnd_le; [|apply bnd_read_string]. lia.
-      - eapply bnd_le; [|apply bnd_read_id; exact Pcid]. lia. }
-    intros p r3 H3.
-    eapply (bnd_bind _ _ _ (S (length r0))).
-    { destruct (negb (flag info C_HAS_ORIGIN) && negb (flag info C_HAS_RIGHT_ORIGIN) && flag info C_HAS_PARENT_SUB);
-        [|cbn; lia].
-      apply bnd_rmap. eapply bnd_le; [|apply bnd_read_string]. lia. }
-    intros ps r4 H4.
-    eapply (bnd_bind _ _ _ (S (length r0))).
-    { eapply bnd_le; [|apply bnd_decode_content]; lia. }
-    intros c r5 H5. destruct (content_len c =? 0); cbn [bnd]; lia.
-  Qed.
-
-  Hypothesis Padd : P P_ADD_U32.
-
-  Lemma bnd_decode_blocks : forall fuel n client clock bs acc, (length bs < fuel)%nat ->
-    bnd P (S (length bs)) (decode_blocks fuel n client clock bs acc).
-  Proof.
-    induction fuel as [|f IH]; intros n client clock bs acc Hl; [lia|]. rewrite decode_blocks_eq.
-    destruct (n =? 0); [cbn; lia|].
-    eapply bnd_bind; [apply bnd_decode_block; exact Hl|]. intros ob rest Hr.
-    destruct ob as [b|].
-    - destruct (add32_checked clock (block_len b)); [|exact Padd].
-      eapply bnd_le; [|apply IH]; lia.
-    - eapply bnd_le; [|apply IH]; lia.
-  Qed.
-
-  Lemma bnd_decode_clients : forall fuel n bs acc, (length bs < fuel)%nat ->
-    bnd P (S (length bs)) (decode_clients fuel n bs acc).
-  Proof.
-    induction fuel as [|f IH]; intros n bs acc Hl; [lia|]. rewrite decode_clients_eq.
-    destruct (n =? 0); [cbn; lia|].
-    eapply bnd_bind; [apply bnd_read_var_u32|]. intros nblocks r1 H1.
-    eapply bnd_bind; [apply bnd_read_var_u64|]. intros c0 r2 H2.
-    eapply bnd_bind; [apply bnd_client_id_new; exact Pcid|]. intros client r2' H2'.
-    eapply bnd_bind; [apply bnd_read_var_u32|]. intros clock r3 H3.
-    eapply bnd_bind; [apply bnd_decode_blocks; lia|]. intros blocks r4 H4.
-    eapply bnd_le; [|apply IH]; lia.
-  Qed.
-
-  Lemma bnd_decode_update : forall fuel bs, (length bs < fuel)%nat ->
-    bnd P (length bs) (decode_update_v1 fuel bs).
-  Proof.
-    intros fuel bs Hl. unfold decode_update_v1.
-    eapply bnd_bind; [apply bnd_read_var_u32|]. intros n r1 H1.
-    eapply bnd_bind; [apply bnd_decode_clients; lia|]. intros cs r2 H2.
-    eapply bnd_bind; [apply (bnd_decode_idset P Padd Pcid); lia|]. intros ds r3 H3.
-    cbn [bnd]. lia.
-  Qed.
-End TotalUpdate.
-
-Lemma ps_update_all : ps_update P_SHL_I64 /\ ps_update P_NEG_I64 /\ ps_update P_CLIENT_ID /\ ps_update P_ADD_U32.
-Proof. unfold ps_update. tauto. Qed.
+Lemma bnd_decode_update : forall fuel bs, (length bs < fuel)%nat ->
+  bnd (length bs) (decode_update_v1 fuel bs).
+Proof.
+  intros fuel bs Hl. unfold decode_update_v1.
+  eapply bnd_bind; [apply bnd_read_var_u32|]. intros n r1 H1.
+  eapply bnd_bind; [apply bnd_decode_clients; lia|]. intros cs r2 H2.
+  eapply bnd_bind; [apply bnd_decode_idset; lia|]. intros ds r3 H3.
+  cbn [bnd]. lia.
+Qed.
 
 Theorem decode_block_total : forall fuel i bs, (length bs < fuel)%nat ->
   match decode_block fuel i bs with
   | Ok _ rest => (length rest < length bs)%nat
   | Err _ => True
-  | Panic s => s = P_CLIENT_ID \/ s = P_SHL_I64 \/ s = P_NEG_I64
+  | Panic _ => False
   | Fuel => False
   end.
-Proof.
-  intros fuel i bs Hl.
-  apply (bnd_decode_block (fun s => s = P_CLIENT_ID \/ s = P_SHL_I64 \/ s = P_NEG_I64)); auto.
-Qed.
+Proof. exact bnd_decode_block. Qed.
 Print Assumptions decode_block_total.
 
 Theorem decode_block_shrinks : forall fuel i bs ob rest, (length bs < fuel)%nat ->
@@ -249,16 +229,21 @@ Theorem decode_update_total : forall fuel bs, (length bs < fuel)%nat ->
   match decode_update_v1 fuel bs with
   | Ok _ rest => (length rest < length bs)%nat
   | Err _ => True
-  | Panic s => s = P_ADD_U32 \/ s = P_CLIENT_ID \/ s = P_SHL_I64 \/ s = P_NEG_I64
+  | Panic _ => False
   | Fuel => False
   end.
-Proof.
-  intros fuel bs Hl. destruct ps_update_all as (H1 & H2 & H3 & H4).
-  apply (bnd_decode_update ps_update H1 H2 H3 H4 fuel bs Hl).
-Qed.
+Proof. exact bnd_decode_update. Qed.
 Print Assumptions decode_update_total.
 
-(* witnesses: one client, one block (info = ITEM_ANY, parent = root ""), one Any of tag INT *)
+(* in particular fuel [length bs + 1] always suffices and the decoder terminates without panic *)
+Corollary decode_update_no_panic : forall bs,
+  match decode_update_v1 (S (length bs)) bs with Panic _ | Fuel => False | _ => True end.
+Proof.
+  intro bs. pose proof (decode_update_total (S (length bs)) bs (Nat.lt_succ_diag_r _)) as H.
+  destruct (decode_update_v1 (S (length bs)) bs); auto.
+Qed.
+
+(* the former panic inputs: one client, one block (info = ITEM_ANY, parent = root ""), one Any of tag INT *)
 Definition update_any_prefix : list N := [1; 1; 0; 0; C_BLOCK_ITEM_ANY_REF_NUMBER; 1; 0; 1; ANY_ENC_INT].
 Definition update_shl_witness : list N := update_any_prefix ++ shl_i64_witness.
 Definition update_neg_witness : list N := update_any_prefix ++ neg_i64_witness.
@@ -269,21 +254,16 @@ Definition update_add_u32_witness : list N := [1; 1; 0; 255; 255; 255; 255; 15; 
 (* no blocks; the delete set overflows *)
 Definition update_add_u32_ds_witness : list N := 0 :: idset_add_u32_witness.
 
-Theorem decode_update_refuted :
-  (exists bs, decode_update_v1 (S (length bs)) bs = Panic P_ADD_U32) /\
-  (exists bs, decode_update_v1 (S (length bs)) bs = Panic P_CLIENT_ID) /\
-  (exists bs, decode_update_v1 (S (length bs)) bs = Panic P_SHL_I64) /\
-  (exists bs, decode_update_v1 (S (length bs)) bs = Panic P_NEG_I64).
-Proof.
-  split; [exists update_add_u32_witness|split; [exists update_client_id_witness|
-    split; [exists update_shl_witness|exists update_neg_witness]]]; vm_compute; reflexivity.
-Qed.
-Print Assumptions decode_update_refuted.
+Definition is_panic {A} (r : res A) : bool := match r with Panic _ | Fuel => true | _ => false end.
 
-Theorem decode_update_refuted_ds :
-  decode_update_v1 (S (length update_add_u32_ds_witness)) update_add_u32_ds_witness = Panic P_ADD_U32.
-Proof. vm_compute. reflexivity. Qed.
-Print Assumptions decode_update_refuted_ds.
+Example decode_update_former_witnesses :
+  forallb (fun bs => negb (is_panic (decode_update_v1 (S (length bs)) bs)))
+    [update_add_u32_witness; update_client_id_witness; update_shl_witness; update_neg_witness;
+     update_add_u32_ds_witness] = true /\
+  decode_update_v1 (S (length update_add_u32_witness)) update_add_u32_witness = Err UnexpectedValue /\
+  decode_update_v1 (S (length update_client_id_witness)) update_client_id_witness = Err UnexpectedValue /\
+  decode_update_v1 (S (length update_add_u32_ds_witness)) update_add_u32_ds_witness = Err UnexpectedValue.
+Proof. repeat split; vm_compute; reflexivity. Qed.
 
 (* ------------------------------------------------------------------------------------------------ *)
 (* A5. block round trip                                                                             *)
@@ -302,17 +282,19 @@ Definition wf_weaklink (w : weaklink) : bool :=
 Definition wf_tyref (t : tyref) : bool :=
   match t with TXmlElement n => wf_str n | TWeak w => wf_weaklink w | _ => true end.
 
+(* strings (wf_str: bytes, u32 length, well-formed UTF-8) are validated by the decoder; a JSON item carries its
+   element count through an i32 (a count >= 2^31 reads as empty); Any values obey the decoder's depth limit *)
 Definition wf_content (c : bcontent) : bool :=
   match c with
   | BDeleted n => (0 <? n) && (n <? two32)
-  | BJson l => (0 <? N.of_nat (length l)) && (N.of_nat (length l) <? two32) && forallb wf_str l
-  | BBinary b => wf_str b
+  | BJson l => (0 <? N.of_nat (length l)) && (N.of_nat (length l) <? 2147483648) && forallb wf_str l
+  | BBinary b => wf_bin b
   | BString s => wf_str s && (0 <? str_len16 s)
   | BEmbed j => wf_str j
   | BFormat k j => wf_str k && wf_str j
   | BType t => wf_tyref t
-  | BAny l => (0 <? N.of_nat (length l)) && (N.of_nat (length l) <? two32) && forallb wf_any l
-  | BDoc g o => wf_str g && wf_any o
+  | BAny l => (0 <? N.of_nat (length l)) && (N.of_nat (length l) <? two32) && forallb wf_any_top l
+  | BDoc g o => wf_str g && wf_any_top o
   end.
 
 Definition content_fuel (c : bcontent) : nat :=
@@ -471,7 +453,8 @@ Lemma decode_content_ref : forall fuel info bs c, N.land info 15 = content_ref c
   decode_content fuel info bs =
   match c with
   | BDeleted _ => rmap BDeleted (read_var_u32 bs)
-  | BJson _ => let* (n, rest) := read_var_u32 bs in rmap BJson (read_strings fuel n rest [])
+  | BJson _ => let* (n, rest) := read_var_u32 bs in
+               rmap BJson (read_strings fuel (if n <? 2147483648 then n else 0) rest [])
   | BBinary _ => rmap BBinary (read_buf bs)
   | BString _ => rmap BString (read_string bs)
   | BEmbed _ => rmap BEmbed (read_string bs)
@@ -496,7 +479,7 @@ Qed.
 
 Lemma read_anys_roundtrip : forall l fuel M acc body rest,
   (length l + M <= fuel)%nat -> (forall a, In a l -> (any_fuel a <= M)%nat) ->
-  forallb wf_any l = true -> encode_anys l = Some body ->
+  forallb wf_any_top l = true -> encode_anys l = Some body ->
   read_anys fuel (N.of_nat (length l)) (body ++ rest) acc = Ok (rev acc ++ l) rest.
 Proof.
   induction l as [|x l IH]; intros fuel M acc body rest Hf HM Hwf Henc; rewrite read_anys_eq.
@@ -508,14 +491,12 @@ Proof.
     destruct (encode_anys l) as [lb|] eqn:El; [|discriminate]. apply some_inj in Henc. subst body.
     rewrite <- app_assoc.
     assert (HxM : (any_fuel x <= M)%nat) by (apply HM; left; reflexivity).
+    unfold wf_any_top in Hx. apply andb_prop in Hx. destruct Hx as [Hx Hxd].
     rewrite (any_roundtrip_full (S f) x xb) by (try assumption; lia). cbn [bind].
     assert (HM' : forall a, In a l -> (any_fuel a <= M)%nat) by (intros a Ha; apply HM; right; exact Ha).
     rewrite (IH f M (x :: acc) lb rest); [|lia|exact HM'|exact Hr|reflexivity].
     cbn [rev]. rewrite <- app_assoc. reflexivity.
 Qed.
-
-Lemma wf_str_len : forall s, wf_str s = true -> N.of_nat (length s) < two32.
-Proof. intros s H. unfold wf_str in H. apply andb_prop in H. lia. Qed.
 
 Theorem content_roundtrip : forall c fuel info cb rest,
   wf_content c = true -> (content_fuel c <= fuel)%nat -> N.land info 15 = content_ref c ->
@@ -526,9 +507,11 @@ Proof.
   destruct c as [n|l|b|s|j|k j|t|l|g o]; cbn [encode_content wf_content content_fuel] in *; unfold rmap.
   - apply some_inj in Henc. subst cb. rewrite var_u32_roundtrip by lia. reflexivity.
   - apply some_inj in Henc. subst cb. apply andb_prop in Hwf. destruct Hwf as [Hwf Hl].
-    rewrite <- app_assoc. rewrite var_u32_roundtrip by lia. cbn [bind].
+    apply andb_prop in Hwf. destruct Hwf as [Hpos Hlt].
+    rewrite <- app_assoc. rewrite var_u32_roundtrip by (unfold two32; lia). cbn [bind].
+    replace (N.of_nat (length l) <? 2147483648) with true by lia.
     rewrite read_strings_roundtrip by assumption. reflexivity.
-  - apply some_inj in Henc. subst cb. rewrite buf_roundtrip by (apply wf_str_len; exact Hwf). reflexivity.
+  - apply some_inj in Henc. subst cb. rewrite bin_roundtrip by exact Hwf. reflexivity.
   - apply some_inj in Henc. subst cb. apply andb_prop in Hwf. destruct Hwf as [Hs _].
     rewrite str_roundtrip by exact Hs. reflexivity.
   - apply some_inj in Henc. subst cb. rewrite str_roundtrip by exact Hwf. reflexivity.
@@ -543,8 +526,9 @@ Proof.
     intros a Ha. apply (list_max_map_in _ any_fuel). exact Ha.
   - destruct (encode_any o) as [body|] eqn:Eo; [|discriminate]. apply some_inj in Henc. subst cb.
     apply andb_prop in Hwf. destruct Hwf as [Hg Ho].
+    unfold wf_any_top in Ho. apply andb_prop in Ho. destruct Ho as [Ho Hod].
     rewrite <- app_assoc. rewrite str_roundtrip by exact Hg. cbn [bind].
-    rewrite (any_roundtrip_full fuel o body) by assumption. reflexivity.
+    rewrite (any_roundtrip_full fuel o body) by (try assumption; lia). reflexivity.
 Qed.
 Print Assumptions content_roundtrip.
 
@@ -632,6 +616,27 @@ Proof.
     unfold rmap. rewrite var_u32_roundtrip by lia. reflexivity.
 Qed.
 Print Assumptions block_roundtrip.
+
+(* what the strengthened wf_content excludes does not round trip *)
+
+(* a JSON item whose count does not fit an i32 decodes to an empty item (which decode_block then drops) *)
+Theorem json_count_i32_wrap : forall fuel info n rest,
+  N.land info 15 = C_BLOCK_ITEM_JSON_REF_NUMBER -> 2147483648 <= n -> n < two32 ->
+  decode_content fuel info (write_var_u32 n ++ rest) = Ok (BJson []) rest.
+Proof.
+  intros fuel info n rest Hinfo Hlo Hhi.
+  rewrite (decode_content_ref fuel info _ (BJson []) Hinfo).
+  rewrite var_u32_roundtrip by exact Hhi. cbn [bind]. replace (n <? 2147483648) with false by lia.
+  rewrite read_strings_eq. reflexivity.
+Qed.
+Print Assumptions json_count_i32_wrap.
+
+(* an item whose string is not well-formed UTF-8 is encoded but rejected by the decoder *)
+Example block_invalid_utf8_rejected :
+  let b := BItem (mkid 1 5) None None (PNamed [97]) None (BString [104; 255]) in
+  wf_block b = false /\
+  exists bs, encode_block b = Some bs /\ decode_block (S (length bs)) (mkid 1 5) bs = Err UnexpectedValue.
+Proof. split; [vm_compute; reflexivity|]. eexists. split; [vm_compute; reflexivity|]. vm_compute. reflexivity. Qed.
 
 (* ------------------------------------------------------------------------------------------------ *)
 (* A6. update round trip                                                                            *)
@@ -761,6 +766,18 @@ Proof.
   cbn [bind app]. rewrite idset_roundtrip by (try assumption; lia). reflexivity.
 Qed.
 Print Assumptions update_roundtrip.
+
+(* the delete set of a decoded update is canonical and well formed: it can be encoded again *)
+Theorem decode_update_ds_wf : forall fuel bs u rest,
+  decode_update_v1 fuel bs = Ok u rest -> wf_idset (u_ds u) = true.
+Proof.
+  intros fuel bs u rest H. unfold decode_update_v1 in H.
+  apply bind_ok in H. destruct H as (n & r1 & _ & H).
+  apply bind_ok in H. destruct H as (cs & r2 & _ & H).
+  apply bind_ok in H. destruct H as (ds & r3 & Hds & H). inversion H; subst. cbn [u_ds].
+  eapply decode_idset_wf. exact Hds.
+Qed.
+Print Assumptions decode_update_ds_wf.
 
 (* ------------------------------------------------------------------------------------------------ *)
 (* remarks: what wf_block excludes really does not round trip, and the predicates are inhabited      *)
